@@ -19,7 +19,9 @@ RULE = ("case = (class, non-default constructor options, get_config before/"
         "option combinations (thorough: plus the full admissible product of every "
         "class with <= 1600 configurations); "
         "random part: Hypothesis draws every option independently plus a probe "
-        "tensor. Every case is rebuilt through 4 routes and original and "
+        "tensor. Every case is rebuilt through 4 routes plus two routes that "
+        "reuse one config dict / one serialized identifier three times; no "
+        "route may change the dictionary it was given; original and "
         "rebuilt quantizers are called on every probe under learning phase 0 "
         "and 1. Non-trivial = at least one non-default option and at least one "
         "call of the original that returned; distinct by hash of the case.")
@@ -31,6 +33,8 @@ ASSUMPTIONS = [
     "stochastic paths: tf.random.set_seed(case seed) is re-armed before the "
     "call sequence (probes x learning phases, fixed order) of every quantizer "
     "object, so equal configurations draw equal random numbers",
+    "dictionaries are compared by value before/after a rebuild (a list turned "
+    "into the equal ndarray is not a change; removed/added keys are)",
     "a call of the ORIGINAL quantizer that raises is not a C09 failure (the "
     "rebuilt one must then raise the same exception type)",
     "option values come from the admissible table in vf/gen/qoptions.py "
@@ -43,7 +47,7 @@ ASSUMPTIONS = [
 ]
 BUDGET_S = {"quick": 70, "thorough": 840}
 ROUTES = ["from_config", "get_quantizer_dict", "get_quantizer_legacy_dict",
-          "keras_deserialize"]
+          "keras_deserialize", "reuse_config", "reuse_serialized"]
 # options without any effect on outputs (variable plumbing only); symmetric
 # of quantized_hswish cannot matter (hswish >= -0.375 never reaches the
 # negative clip)
@@ -74,31 +78,90 @@ def _table():
   return t
 
 
+def _deep_equal(a, b):
+  """Value equality of (nested) config objects; lists, tuples and arrays are
+  compared by shape and value (a list turned into the equal ndarray is not a
+  change), everything else by == and type."""
+  if isinstance(a, dict) or isinstance(b, dict):
+    if not (isinstance(a, dict) and isinstance(b, dict)):
+      return False
+    return sorted(a, key=str) == sorted(b, key=str) and all(
+        _deep_equal(a[k], b[k]) for k in a)
+  if isinstance(a, str) or isinstance(b, str) or a is None or b is None:
+    return type(a) is type(b) and a == b
+  try:
+    x, y = np.asarray(a), np.asarray(b)
+    if x.dtype == object or y.dtype == object:
+      return bool(a == b)
+    return x.shape == y.shape and bool(np.array_equal(x, y))
+  except Exception:  # pylint: disable=broad-except
+    return a is b
+
+
+def _changed_keys(before, after, prefix=""):
+  if isinstance(before, dict) and isinstance(after, dict):
+    out = []
+    for k in sorted(set(before) | set(after), key=str):
+      if k not in after:
+        out.append(prefix + str(k) + ":removed")
+      elif k not in before:
+        out.append(prefix + str(k) + ":added")
+      else:
+        out += _changed_keys(before[k], after[k], prefix + str(k) + ".")
+    return out
+  return [] if _deep_equal(before, after) else [prefix.rstrip(".") + ":changed"]
+
+
 def _rebuild(route, q, cls):
-  """Returns (q2, None) or (None, (kind, exception))."""
+  """Returns (q2, None | (kind, exception), changed) where `changed` lists the
+  entries of the dictionary handed to the route that differ afterwards.
+
+  The `reuse_*` routes rebuild three times from ONE configuration dictionary /
+  ONE serialized identifier (through two different entry points) and return
+  the last object: a config must stay usable after it has been used."""
+  import copy  # pylint: disable=g-import-not-at-top
   import tensorflow as tf  # pylint: disable=g-import-not-at-top
   from qkeras import quantizers as Q  # pylint: disable=g-import-not-at-top
+  from_cfg = route in ("from_config", "get_quantizer_legacy_dict",
+                       "reuse_config")
   try:
-    if route in ("from_config", "get_quantizer_legacy_dict"):
-      cfg = q.get_config()
+    if from_cfg:
+      given = q.get_config()
+      if route != "from_config":
+        given = {"class_name": cls, "config": given}
     else:
-      ser = tf.keras.utils.serialize_keras_object(q)
+      given = tf.keras.utils.serialize_keras_object(q)
   except Exception as e:  # pylint: disable=broad-except
-    return None, ("get_config_raises" if route in (
-        "from_config", "get_quantizer_legacy_dict") else "serialize_raises", e)
+    return None, ("get_config_raises" if from_cfg else "serialize_raises",
+                  e), []
+  try:
+    before = copy.deepcopy(given)
+  except Exception:  # pylint: disable=broad-except
+    before = None
   try:
     if route == "from_config":
-      q2 = type(q).from_config(cfg)
+      q2 = type(q).from_config(given)
     elif route == "get_quantizer_legacy_dict":
-      q2 = Q.get_quantizer({"class_name": cls, "config": cfg})
+      q2 = Q.get_quantizer(given)
     elif route == "get_quantizer_dict":
-      q2 = Q.get_quantizer(ser)
-    else:
-      q2 = tf.keras.utils.deserialize_keras_object(ser,
+      q2 = Q.get_quantizer(given)
+    elif route == "keras_deserialize":
+      q2 = tf.keras.utils.deserialize_keras_object(given,
                                                    custom_objects=_table())
+    elif route == "reuse_config":
+      type(q).from_config(given["config"])
+      Q.get_quantizer(given)
+      q2 = type(q).from_config(given["config"])
+    elif route == "reuse_serialized":
+      Q.get_quantizer(given)
+      tf.keras.utils.deserialize_keras_object(given, custom_objects=_table())
+      q2 = Q.get_quantizer(given)
+    else:
+      raise ValueError(route)
   except Exception as e:  # pylint: disable=broad-except
-    return None, ("rebuild_raises", e)
-  return q2, None
+    return None, ("rebuild_raises", e), []
+  changed = [] if before is None else _changed_keys(before, given)
+  return q2, None, changed
 
 
 class _Memo(dict):
@@ -136,6 +199,7 @@ class Ev(object):
     self._obs = None
     self._robs = {}
     self._fid = {}
+    self.changed = {}
     try:
       self.q = O.build(cls, kw, post)
     except Exception as e:  # pylint: disable=broad-except
@@ -152,8 +216,9 @@ class Ev(object):
         self.cfg = None
     finally:
       core.reset_globals()
+    self.changed = {r: self.rebuilt[r][2] for r in ROUTES}
     for r in ROUTES:
-      q2, err = self.rebuilt[r]
+      q2, err = self.rebuilt[r][:2]
       if err is not None:
         kind, e = err
         es = core.exc_signature(e)
@@ -274,6 +339,12 @@ def oracle(ctx, case, stats=None):
     return fails
   seen = set()
   for r in ROUTES:
+    if ev.changed.get(r):
+      fails.append((r, {"cls": cls, "route": r, "kind": "mutates_argument",
+                        "entries": ev.changed[r]},
+                    "%s(%s): the dictionary handed to the route differs "
+                    "afterwards: %s" % (cls, O.kwstr(kw), ev.changed[r]),
+                    case))
     for f in _analyse(ctx, cls, kw, cf, probes, seed, r, post):
       k = core.fkey(f[0], f[1])
       if k not in seen:
